@@ -25,7 +25,7 @@ class C06(Prop):
     def cases(self, rng, tier):
         N = 320 if tier == "quick" else 5000
         for i in range(N):
-            kind = ["dyadic", "dyadic", "uniform", "float", "scaled", "ps", "neartie", "bigint"][i % 8]
+            kind = ["dyadic", "dyadic", "uniform", "float", "scaled", "ps", "neartie", "bigint", "range"][i % 9]
             n = rng.randint(1, 5 if kind != "float" else 4); k = rng.randint(1, 5)
             if kind == "ps":
                 n = rng.randint(2, 5)
@@ -39,6 +39,8 @@ class C06(Prop):
                 elif kind == "uniform": w = Fraction(1, k)
                 elif kind == "scaled": w = Fraction(rng.randint(1, 9))
                 elif kind == "bigint": w = Fraction(rng.choice([100000, 100001, 150000, 99999, 1000003]))
+                elif kind == "range":      # exactly representable weights of very different magnitude (all arithmetic exact in binary64)
+                    w = Fraction(rng.choice([4 * 10 ** 9, 10 ** 12, 2 ** 40, 2 ** 20])) if len(ws) == 0 else Fraction(rng.choice([1, 100, 3])) * Fraction(1, rng.choice([1, 1, 2 ** 11]))
                 elif kind == "neartie": w = Fraction(rng.choice([0.3, 0.3, 0.25])) * (1 + Fraction(rng.choice([0, 1, 2, 7, -3]), 10**6))
                 else: w = Fraction(rng.random())
                 ws.append(w)
